@@ -97,26 +97,22 @@ Proof. induction 1 as [|i r Hi _ IH]; intros pre; cbn [find_violated]; [reflexiv
 Lemma exceeds_none_of_fits c size : match sc_max c with Some m => sc_already c + size <= m | None => True end -> exceeds c size = None.
 Proof. unfold exceeds. destruct (sc_max c) as [m|]; [|reflexivity]. intros H. replace (m <? sc_already c + size) with false by lia. reflexivity. Qed.
 
-(** O1: the list-level size check when the field fits every live region *)
-Theorem bytes_parsed_fits p size s : wf_st s -> fits (view s) size ->
+(** O1: the list-level size check when no listed live region would be crossed *)
+Theorem bytes_parsed_nv p size s : wf_st s ->
+  find_violated (mkSt [] (store s) (filter (live s) (lst s))) (filter (live s) (lst s)) size [] = None ->
   exists s', bytes_parsed p size s = ([], s', Ok tt) /\ inp s' = inp s /\ view s' = bump size (view s) /\ wf_st s' /\
              List.length (store s') = List.length (store s) /\
              (forall i, ~ In i (lst s) -> get_sc s' i = get_sc s i) /\ incl (lst s') (lst s).
 Proof.
-  intros [ND AL] F. unfold bytes_parsed. unfold bind at 1.
+  intros [ND AL] NV. unfold bytes_parsed. unfold bind at 1.
   destruct (purge_spec s) as (s0 & E0 & I0 & St0 & L0). rewrite E0. unfold bind at 1. cbn [get app].
   assert (ND0 : NoDup (lst s0)) by (rewrite L0; apply NoDup_filter, ND).
   assert (AL0 : Forall (fun i => (i < List.length (store s0))%nat) (lst s0)).
   { rewrite L0, St0. apply Forall_forall. intros i Hi. apply filter_In in Hi as [Hi _]. rewrite Forall_forall in AL. apply AL, Hi. }
   assert (G0 : forall i, get_sc s0 i = get_sc s i) by (intros i; unfold get_sc; rewrite St0; reflexivity).
-  assert (NV : find_violated (mkSt [] (store s0) (lst s0)) (lst s0) size [] = None).
-  { apply find_violated_none. rewrite L0. apply Forall_forall. intros i Hi.
-    cbv beta. unfold get_sc at 1. cbn [store]. rewrite St0. fold (get_sc s i).
-    apply exceeds_none_of_fits. unfold fits, view in F. rewrite Forall_forall in F.
-    specialize (F (entry_of s i)). cbn in F. apply F. apply in_map. exact Hi. }
-  cbn [lst]. rewrite NV.
+  cbn [lst]. rewrite St0, L0, NV.
   destruct (bump_all_spec (lst s0) size s0 ND0 AL0) as (s' & E & I1 & L1 & Len & Hin & Hout).
-  exists s'. rewrite E. split; [reflexivity|]. split; [congruence|].
+  rewrite <- L0. rewrite E. exists s'. split; [reflexivity|]. split; [congruence|].
   assert (Live : forall i, live s' i = live s i).
   { intros i. unfold live. destruct (in_dec Nat.eq_dec i (lst s0)) as [Hi|Hi].
     - rewrite (Hin i Hi). cbn. rewrite G0. reflexivity.
@@ -129,6 +125,18 @@ Proof.
     split.
     + intros i Hi. rewrite Hout, G0; [reflexivity|]. rewrite L0. intros Hx. apply filter_In in Hx as [Hx _]. contradiction.
     + rewrite L1, L0. intros i Hi. apply filter_In in Hi as [Hi _]. exact Hi.
+Qed.
+
+Theorem bytes_parsed_fits p size s : wf_st s -> fits (view s) size ->
+  exists s', bytes_parsed p size s = ([], s', Ok tt) /\ inp s' = inp s /\ view s' = bump size (view s) /\ wf_st s' /\
+             List.length (store s') = List.length (store s) /\
+             (forall i, ~ In i (lst s) -> get_sc s' i = get_sc s i) /\ incl (lst s') (lst s).
+Proof.
+  intros W F. apply bytes_parsed_nv; [exact W|].
+  apply find_violated_none. apply Forall_forall. intros i Hi.
+  cbv beta. unfold get_sc at 1. cbn [store]. fold (get_sc s i).
+  apply exceeds_none_of_fits. unfold fits, view in F. rewrite Forall_forall in F.
+  specialize (F (entry_of s i)). cbn in F. apply F. apply in_map. exact Hi.
 Qed.
 
 (** ---- what a run leaves alone: constraint objects allocated before (index below [n]) and not listed are neither
